@@ -37,7 +37,9 @@ package container
 
 //@ func NewRingBuffer(size uint) *ringBuffer[V]
 //@   props C14
-//@   ensures size < 1<<64 - 1 ==> fresh(r0) && r0.wf() && r0.n() == 0 && len(r0.buf) - 1 == size
+// a size whose size+1 slots cannot be represented (size+1 wraps to 0 for the maximum uint) is refused by a panic
+//@   panics size >= 1<<63 - 1
+//@   ensures fresh(r0) && r0.wf() && r0.n() == 0 && len(r0.buf) - 1 == size
 //@   ensures maxuint: size == 1<<64 - 1 ==> fresh(r0) && r0.wf() && r0.n() == 0 && len(r0.buf) - 1 == size
 
 //@ func (r *ringBuffer[V]) Len() int
